@@ -445,3 +445,85 @@ def replay_cascade(fl, FA, vals=None, seed=0, budget=300, **kw):
         if not np.array_equal(before, np.array(ov.value, dtype=float), equal_nan=True):
             return {"failed": True, "expected": "disabled variable untouched", "observed": np.array(ov.value, dtype=float).tolist(), "call": "defuzzify on a disabled variable"}
     return {"failed": False, "cases": cases, "distinct": len(seen)}
+
+
+# ---------------------------------------------------------------------------------------------------- readiness (C19)
+def _ready_engine(fl, rng, kind):
+    """a small engine; kind in mamdani / sugeno / tsukamoto / hybrid; antecedent connectives chosen at random"""
+    A = fl.InputVariable("A", minimum=0.0, maximum=1.0, terms=[fl.Ramp("low", 1.0, 0.0), fl.Ramp("high", 0.0, 1.0)])
+    B = fl.InputVariable("B", minimum=0.0, maximum=1.0, terms=[fl.Triangle("low", -1.0, 0.0, 1.0), fl.Triangle("high", 0.0, 1.0, 2.0)])
+    C = fl.InputVariable("C", minimum=0.0, maximum=1.0, terms=[fl.Ramp("low", 1.0, 0.0), fl.Ramp("high", 0.0, 1.0)])
+    M = fl.OutputVariable("M", minimum=0.0, maximum=1.0, aggregation=fl.Maximum(), defuzzifier=rng.choice([fl.Centroid(50), fl.MeanOfMaximum(50), fl.Bisector(50)]),
+                          terms=[fl.Triangle("m", 0.0, 0.5, 1.0), fl.Triangle("n", 0.25, 0.75, 1.0)])
+    S = fl.OutputVariable("S", minimum=0.0, maximum=10.0, aggregation=rng.choice([None, fl.UnboundedSum()]), defuzzifier=rng.choice([fl.WeightedAverage(), fl.WeightedSum()]),
+                          terms=[fl.Constant("s", 2.0), fl.Constant("t", 7.0)] if kind != "tsukamoto" else [fl.Ramp("s", 0.0, 10.0), fl.Ramp("t", 10.0, 0.0)])
+    ants = ["A is low", "A is low and B is high", "A is low or B is high", "A is low and B is low or C is high", "(A is low or B is low) and C is high", "A is very low",
+            "A is low and (B is high or C is low)", "A is any"]
+    cons = {"mamdani": ["M is m", "M is n", "M is m and M is n"], "sugeno": ["S is s", "S is t"], "tsukamoto": ["S is s", "S is t"],
+            "hybrid": ["M is m and S is s", "S is t and M is n", "M is m", "S is s"]}[kind]
+    outs = {"mamdani": [M], "sugeno": [S], "tsukamoto": [S], "hybrid": [M, S]}[kind]
+    act = rng.choice([fl.General(), fl.General(), fl.First(2, 0.0), fl.Last(1, 0.1), fl.Highest(2), fl.Lowest(1), fl.Proportional(), fl.Threshold(">=", 0.2)])
+    rules = [fl.Rule.create(f"if {rng.choice(ants)} then {rng.choice(cons)}") for _ in range(rng.randrange(1, 4))]
+    rb = fl.RuleBlock(name="rb", conjunction=fl.Minimum(), disjunction=fl.Maximum(), implication=fl.Minimum(), activation=act, rules=rules)
+    e = fl.Engine(name="e", input_variables=[A, B, C], output_variables=outs, rule_blocks=[rb])
+    return e
+
+
+def replay_ready(fl, FA, vals=None, seed=0, budget=200, exclude_known=False, **kw):
+    """is_ready() reports no error  ==>  process() completes without raising, for finite inputs in every input form; and every missing
+    operator that the loaded rules / output variables need is reported"""
+    import random
+    import numpy as np
+    rng = random.Random(seed)
+    cases, seen = 0, set()
+    for it in range(budget):
+        kind = rng.choice(["mamdani", "sugeno", "tsukamoto", "hybrid"])
+        e = _ready_engine(fl, rng, kind)
+        rb = e.rule_blocks[0]
+        removed = [x for x in ("conjunction", "disjunction", "implication", "aggregation", "defuzzifier") if rng.random() < 0.3]
+        for x in removed:
+            if x in ("conjunction", "disjunction", "implication"):
+                setattr(rb, x, None)
+            else:
+                for ov in e.output_variables:
+                    if rng.random() < 0.7:
+                        setattr(ov, x, None)
+        errors = []
+        ready = e.is_ready(errors)
+        # what the loaded rules / variables need (independent reading of the property)
+        need = set()
+        for r in rb.rules:
+            toks = r.antecedent.text.split()
+            if "and" in toks and rb.conjunction is None: need.add("conjunction")
+            if "or" in toks and rb.disjunction is None: need.add("disjunction")
+            if r.is_loaded() and rb.implication is None and any(isinstance(c.variable.defuzzifier, fl.IntegralDefuzzifier) for c in r.consequent.conclusions):
+                need.add("implication")
+        for ov in e.output_variables:
+            if ov.defuzzifier is None: need.add("defuzzifier")
+            if ov.aggregation is None and isinstance(ov.defuzzifier, fl.IntegralDefuzzifier): need.add("aggregation")
+        cases += 1
+        seen.add((kind, tuple(removed), type(rb.activation).__name__, tuple(r.text for r in rb.rules)))
+        desc = f"{kind} engine, activation {type(rb.activation).__name__}, rules {[r.text for r in rb.rules]}, removed {removed}"
+        if need and ready:
+            if exclude_known and need == {"disjunction"} and rb.conjunction is not None:
+                pass      # region of known finding C19-1 (fixed entries do not use this switch)
+            else:
+                return {"failed": True, "expected": f"is_ready() reports the missing {sorted(need)}", "observed": "is_ready() == True, no errors", "cases": cases, "call": desc}
+        if ready and not need:
+            row = [rng.choice([0.0, 0.25, 0.5, 0.75, 1.0, 0.3]) for _ in range(3)]
+            forms = [("floats", lambda: [setattr(v, "value", x) for v, x in zip(e.input_variables, row)]),
+                     ("1-row matrix", lambda: setattr(e, "input_values", np.array([row]))),
+                     ("vector", lambda: setattr(e, "input_values", np.array(row)))]
+            for fname, setter in forms:
+                if fname != "floats" and type(rb.activation).__name__ == "Proportional":
+                    continue      # recorded separately (Proportional's in-place sum with array degrees)
+                e.restart()
+                for x in removed:
+                    pass
+                setter()
+                try:
+                    e.process()
+                except Exception as ex:  # noqa
+                    return {"failed": True, "expected": "process() completes: is_ready() reported no error", "observed": f"{type(ex).__name__}: {ex}", "cases": cases,
+                            "call": f"{desc}; inputs {row} given as {fname}"}
+    return {"failed": False, "cases": cases, "distinct": len(seen)}
